@@ -5,6 +5,7 @@ import (
 	"go/constant"
 	"go/token"
 	"go/types"
+	"os"
 	"slices"
 	"strings"
 	"sync"
@@ -202,6 +203,8 @@ func (p *Path) call(caller *frame, fnv Value, args []Value) Value {
 }
 
 var initSteps sync.Map
+var traceCalls = os.Getenv("SYMGO_TRACE_CALLS") != ""
+var traceFn = os.Getenv("SYMGO_TRACE_FN")
 
 var noopPkgPrefixes = []string{
 	"go.uber.org/zap", "github.com/prometheus/client_golang", "github.com/VictoriaMetrics/metrics",
@@ -238,6 +241,13 @@ func (p *Path) callSSA(caller *frame, fn *ssa.Function, args []Value, env []Valu
 		}
 		if fn.Synthetic == "package initializer" && caller != nil {
 			return nil // imported package initialisers run lazily
+		}
+		// (*regattapb.T).Reset: `*x = T{}` plus protoimpl bookkeeping that nothing interpreted reads
+		if strings.HasPrefix(name, "(*"+regattaMod+"/regattapb.") && strings.HasSuffix(name, ").Reset") && len(args) == 1 {
+			if ptr, ok := args[0].(*Value); ok && ptr != nil {
+				*ptr = p.zero(fn.Signature.Recv().Type().(*types.Pointer).Elem())
+			}
+			return nil
 		}
 	}
 	pkgPath := ""
@@ -276,6 +286,13 @@ func (p *Path) callSSA(caller *frame, fn *ssa.Function, args []Value, env []Valu
 	}
 	if fn.TypeParams().Len() > 0 && len(fn.TypeArgs()) == 0 {
 		panic(unsupported{"call of uninstantiated generic " + name})
+	}
+	if traceCalls {
+		var as []string
+		for _, a := range args {
+			as = append(as, valString(a))
+		}
+		fmt.Fprintf(os.Stderr, "%*sCALL %s(%s)\n", p.depth, "", name, strings.Join(as, ", "))
 	}
 	p.depth++
 	if p.depth > p.eng.maxDepth {
@@ -342,6 +359,13 @@ func (p *Path) runFrame(fr *frame) {
 				k = p.visitTolerant(fr, instr)
 			} else {
 				k = p.visitInstr(fr, instr)
+			}
+			if traceFn != "" && strings.Contains(fr.fn.String(), traceFn) {
+				out := ""
+				if v, ok := instr.(ssa.Value); ok {
+					out = v.Name() + " = " + valString(fr.env[v])
+				}
+				fmt.Fprintf(os.Stderr, "   [%s] %s   => %s\n", fr.fn.Name(), instr.String(), out)
 			}
 			if k == kReturn {
 				return
@@ -504,7 +528,7 @@ func (p *Path) prepareCall(fr *frame, call *ssa.CallCommon) (Value, []Value) {
 			panic(engineError{fmt.Sprintf("invoke on %T", v)})
 		}
 		if recv.T == nil {
-			p.goPanicRuntime("invalid memory address or nil pointer dereference (method call on nil interface)")
+			p.goPanicRuntime("invalid memory address or nil pointer dereference (method " + call.Method.Name() + " called on nil interface)")
 		}
 		if nm, ok := recv.V.(*NativeObj); ok && nm.Methods != nil {
 			if f, ok := nm.Methods[call.Method.Name()]; ok {
